@@ -1,6 +1,6 @@
 From Coq Require Import List Arith Lia Bool.
 Import ListNotations.
-From SV Require Import c15.Conc c15.Model_C15 c15.Proofs_C15 c15.Proofs_C15_Excl c15.Proofs_C15_Spawn c15.Proofs_C15_Visible c15.Proofs_C15_Visible2 c15.Properties_C15.
+From SV Require Import c15.Conc c15.Model_C15 c15.Proofs_C15 c15.Proofs_C15_Excl c15.Proofs_C15_Spawn c15.Proofs_C15_Visible c15.Proofs_C15_Visible2 c15.Proofs_C15_Flags c15.Properties_C15.
 
 Check (C15_single_stopper : forall progs sched s1 s2 x1 x2,
   let w := run cfg_fixed sched (init progs) in
@@ -89,6 +89,16 @@ Check (eq_refl : vis_at = fun w h k =>
   is_update (head (th w h)) = true /\ S (seen (th w h)) = env_gen w /\
   forall t, t <> h -> live (th w t) = true ->
             (t < k -> seen (th w t) = env_gen w) /\ (k <= t -> S (seen (th w t)) = env_gen w)).
+Check (C15_flagged_until_resumed : forall progs sched h s,
+  let w := run cfg_fixed sched (init progs) in
+  pc (th w h) = Stw s -> flagged2_ok w h s).
+Check (eq_refl : flagged2_ok = fun w h s =>
+  match s with
+  | SOwnFlag | SStopLock => True
+  | SSetFlag k => forall t, t < k -> t <> h -> reg (th w t) = true -> is_done (pc (th w t)) = false -> paused (th w t) = true
+  | SResume k => forall t, k <= t -> t <> h -> reg (th w t) = true -> is_done (pc (th w t)) = false -> paused (th w t) = true
+  | _ => forall t, t <> h -> reg (th w t) = true -> is_done (pc (th w t)) = false -> paused (th w t) = true
+  end).
 Print Assumptions C15_single_stopper.
 Print Assumptions C15_flags_cleared.
 Print Assumptions C15_parked_released.
@@ -106,3 +116,4 @@ Print Assumptions C15_exit_window_free_nonvacuous.
 Print Assumptions C15_table_generations.
 Print Assumptions C15_global_visible.
 Print Assumptions C15_global_visible_nonvacuous.
+Print Assumptions C15_flagged_until_resumed.
